@@ -231,12 +231,25 @@ def rule_truthful(chk):
     _c0, wcalls0 = c02._write_call(chk, f)
     mvar = wcalls0[0][1].args[0].id if wcalls0 and wcalls0[0][1].args and isinstance(wcalls0[0][1].args[0], ast.Name) else None
     chk.need(mvar, "finish: the written message is not a local name")
-    for n, lay, _rebind in common.dict_events(f, cfg, mvar):
+    evs = list(common.dict_events(f, cfg, mvar))
+    # fields merged in from another local dictionary (`fields.update(extra)`): its own construction counts as well
+    for n, lay, _rebind in list(evs):
+        for l in lay:
+            if l[0] == "src" and isinstance(l[1], ast.Name) and l[1].id != mvar and l[1].id not in f.params:
+                evs += list(common.dict_events(f, cfg, l[1].id))
+    for n, lay, _rebind in evs:
         for l in lay:
             if l[0] == "key":
                 ok, k = ctx.try_fold(f, l[1])
                 if ok and k == AS:
                     okv, v = ctx.try_fold(f, l[2])
+                    if not okv and isinstance(l[2], ast.Name) and l[2].id not in f.params:
+                        # the status travels in a local: each `status = <constant>` is where it is decided
+                        for d in cfg.live:
+                            if isinstance(d.ast, ast.Assign) and d.kind != "test" and any(isinstance(t, ast.Name) and t.id == l[2].id for t in d.ast.targets):
+                                okd, dv = ctx.try_fold(f, d.ast.value)
+                                status_stores.append((d, dv if okd else None))
+                        continue
                     status_stores.append((n, v if okv else None))
     chk.need(status_stores, "finish does not store an action status")
     for n, v in status_stores:
@@ -568,10 +581,15 @@ def rule_mro(chk):
         chk.req(ok_arg, "C03.mro", "get_fields_for_exception:walks-the-MRO-in-order", chk.where(g, head.lineno),
                 good="iterates the MRO of %s in order" % txt, fail="extractor lookup iterates the MRO of %s, which is not the class of the exception that escaped (nearest class must win)" % txt)
         lv = head.ast.target.id if isinstance(head.ast.target, ast.Name) else None
-        tests = [t for t in cfg.live if t.kind == "test" and isinstance(t.exprs[0], ast.Compare) and len(t.exprs[0].ops) == 1
-                 and isinstance(t.exprs[0].ops[0], ast.In) and isinstance(t.exprs[0].left, ast.Name) and t.exprs[0].left.id == lv
-                 and unparse(t.exprs[0].comparators[0]) == "self.registry"]
-        found_edges = [(t, "true") for t in tests]
+        def _member(t):
+            """label of the branch on which the loop's class IS registered, or None when t is not that membership test"""
+            e, lab = X.strip_not(t.exprs[0], "true")
+            if isinstance(e, ast.Compare) and len(e.ops) == 1 and isinstance(e.ops[0], (ast.In, ast.NotIn)) and isinstance(e.left, ast.Name) and e.left.id == lv \
+                    and unparse(e.comparators[0]) == "self.registry":
+                return lab if isinstance(e.ops[0], ast.In) else ("false" if lab == "true" else "true")
+            return None
+        tests = [t for t in cfg.live if t.kind == "test" and not isinstance(t.ast, (ast.For, ast.While)) and _member(t) is not None]
+        found_edges = [(t, _member(t)) for t in tests]
         # `e = self.registry.get(<class>)` followed by a None test of e: the not-None branch is "a registered class was found"
         getvars = {x.ast.targets[0].id for x in cfg.live if isinstance(x.ast, ast.Assign) and len(x.ast.targets) == 1 and isinstance(x.ast.targets[0], ast.Name)
                    and isinstance(x.ast.value, ast.Call) and isinstance(x.ast.value.func, ast.Attribute) and x.ast.value.func.attr == "get"
@@ -606,7 +624,7 @@ def rule_mro(chk):
             if vals_ and all(v_ is not None and ((isinstance(v_, ast.Name) and v_.id == lv) or (isinstance(v_, ast.Constant) and v_.value is None)) for v_ in vals_) \
                     and any(isinstance(v_, ast.Name) for v_ in vals_):
                 asg_ = [x for x in cfg.live if isinstance(x.ast, ast.Assign) and isinstance(x.ast.targets[0], ast.Name) and x.ast.targets[0].id == nm_ and isinstance(x.ast.value, ast.Name)]
-                if all(any(cfg.edge_dominates(t, "true", a_) for t in tests) for a_ in asg_):
+                if all(any(cfg.edge_dominates(t, _member(t), a_) for t in tests) for a_ in asg_):
                     found_names.add(nm_)
         chk.req((bool(regs) or bool(gets)) and all(isinstance(x.slice, ast.Name) and x.slice.id in found_names for x in regs)
                 and all(x.args and isinstance(x.args[0], ast.Name) and x.args[0].id in found_names for x in gets), "C03.mro",
